@@ -6,8 +6,10 @@ What is modelled (line numbers of `src/pymoca/backends/casadi/model.py`):
 * 289-342 which variables are expanded, the component-name format built from the per-level
   Modelica shape (`a.b[{}].c[{},{}]`, `der(` … `)` wrapped outside), the iterator shape;
 * 345-348 the enumeration of index tuples (`np.ndindex`, row-major) and the 1-based names;
-* 350-374 the selection of the element of each attribute (`selList`, `selDM`; the code as it
-  is — `Strict` — and the selection by trailing indices of `proposed_fixes/C18-1.diff`);
+* 350-386 the selection of the element of each attribute: `selList`, `selDM` select with the
+  trailing indices (the code as it is since commit 5f5e413, `proposed_fixes/C18-1.diff`);
+  `selListFull`, `selDMFull` apply the whole index tuple (the code before that commit, kept to
+  state what the fix changed);
 * 378-389 the substitution value `reshape(vertcat(elements), reversed(shape)).T` under CasADi's
   column-major storage (`Mat`, `vertcat`, `reshape`, `transpose`, `substValue`);
 * 393-421 renaming of delay states and outputs (`spliceAll`);
@@ -52,15 +54,21 @@ def ndindex (ds : List Nat) : List (List Nat) := (List.range (prod ds)).map (unr
 
 def digitChar (d : Nat) : Char := Char.ofNat (48 + d)
 
-/-- `str(n)` for a natural number -/
-def dec (n : Nat) : List Char :=
-  if h : n < 10 then [digitChar n] else dec (n / 10) ++ [digitChar (n % 10)]
-decreasing_by omega
+def decAux : Nat → Nat → List Char
+  | 0, _ => []
+  | f + 1, n => if n < 10 then [digitChar n] else decAux f (n / 10) ++ [digitChar (n % 10)]
 
+/-- `str(n)` for a natural number (the fuel `n + 1` always suffices) -/
+def dec (n : Nat) : List Char := decAux (n + 1) n
+
+def commaTail : List (List Char) → List Char
+  | [] => []
+  | y :: r => ',' :: (y ++ commaTail r)
+
+/-- `",".join(xs)` -/
 def commaSep : List (List Char) → List Char
   | [] => []
-  | [x] => x
-  | x :: y :: r => x ++ ',' :: commaSep (y :: r)
+  | x :: r => x ++ commaTail r
 
 /-- `"[" + ",".join(str(i + 1) for i in idx) + "]"` -/
 def idxText (idx : List Nat) : List Char := '[' :: commaSep (idx.map fun i => dec (i + 1)) ++ [']']
@@ -72,10 +80,14 @@ def nameLevels : List (List Char × Level) → List Nat → List (List Char)
   | (p, some ds) :: rest, idx =>
       (p ++ idxText (idx.take ds.length)) :: nameLevels rest (idx.drop ds.length)
 
+def dotTail : List (List Char) → List Char
+  | [] => []
+  | y :: r => '.' :: (y ++ dotTail r)
+
+/-- `".".join(xs)` -/
 def dotJoin : List (List Char) → List Char
   | [] => []
-  | [x] => x
-  | x :: y :: r => x ++ '.' :: dotJoin (y :: r)
+  | x :: r => x ++ dotTail r
 
 /-- `(?:der\()*` -/
 def stripDer : List Char → List Char × List Char
@@ -155,37 +167,53 @@ def elemPos (ds idx : List Nat) : Nat :=
 
 /-! ## Attribute element selection -/
 
+/-- a (nested) Python list of integers, Lisp style: `[a, b]` is `cons a (cons b nil)` -/
 inductive NList where
   | leaf (v : Int)
-  | node (xs : List NList)
+  | nil
+  | cons (h t : NList)
 
-/-- `val = value; for i in ind: val = val[i]` on a (nested) Python list -/
+/-- `v[i]` -/
+def NList.nth : NList → Nat → Except String NList
+  | .leaf _, _ => .error "TypeError"       -- 'int' object is not subscriptable
+  | .nil, _ => .error "IndexError"
+  | .cons h _, 0 => .ok h
+  | .cons _ t, n + 1 => t.nth n
+
+/-- `val = value; for i in ind: val = val[i]` -/
 def NList.sel : NList → List Nat → Except String NList
   | v, [] => .ok v
-  | .leaf _, _ :: _ => .error "TypeError"
-  | .node xs, i :: is =>
-    match xs[i]? with
-    | none => .error "IndexError"
-    | some x => x.sel is
+  | v, i :: is =>
+    match v.nth i with
+    | .ok x => x.sel is
+    | .error e => .error e
 
+/-- number of list levels, following first elements (`while isinstance(v, list) and v`) -/
 def NList.depth : NList → Nat
   | .leaf _ => 0
-  | .node [] => 1
-  | .node (x :: _) => x.depth + 1
+  | .nil => 0
+  | .cons h _ => h.depth + 1
 
-/-- the code as it is: the whole index tuple is applied -/
-def selListStrict (v : NList) (idx : List Nat) : Except String NList := v.sel idx
+/-- before commit 5f5e413: the whole index tuple is applied -/
+def selListFull (v : NList) (idx : List Nat) : Except String NList := v.sel idx
 
-/-- `proposed_fixes/C18-1.diff`: a list of depth `k` is indexed by the last `k` indices -/
-def selListTrailing (v : NList) (idx : List Nat) : Except String NList :=
+/-- the code as it is: `for i in ind[len(ind) - n_dim:]: val = val[i]` — a list of depth `n_dim`
+    is indexed by the last `n_dim` indices -/
+def selList (v : NList) (idx : List Nat) : Except String NList :=
   v.sel (idx.drop (idx.length - v.depth))
 
-/-- `value[ind]` on a `ca.DM` of shape `(r, c)`: position in the column-major data -/
-def selDM (r c : Nat) (idx : List Nat) : Except String Nat :=
+/-- `value[ind]` on a `ca.DM` of shape `(r, c)` with the whole tuple: position in the column-major data -/
+def selDMFull (r c : Nat) (idx : List Nat) : Except String Nat :=
   match idx with
   | [i] => if i < r * c then .ok i else .error "RuntimeError"
   | [i, j] => if i < r ∧ j < c then .ok (i + j * r) else .error "RuntimeError"
   | _ => .error "NotImplementedError"
+
+/-- the code as it is for a `ca.DM`: two trailing indices when the last two iterator dimensions are
+    the DM's shape (`iterator_shape[-2:] == value.shape`), else one (a column) -/
+def selDM (ds : List Nat) (r c : Nat) (idx : List Nat) : Except String Nat :=
+  let n := if ds.drop (ds.length - 2) = [r, c] then 2 else 1
+  selDMFull r c (idx.drop (idx.length - n))
 
 /-! ## Outputs and delay states -/
 
